@@ -16,23 +16,24 @@ def payloadOf? : String → Option PayloadKind
   | "status" => some .statusJson | "other-json" => some .otherJson | "text" => some .text
   | "empty" => some .empty | _ => none
 
+def hdrOf? : Json → Option Hdr
+  | .null => some .absent
+  | .arr #[.str "secs", x] => do some (.secs (← jInt? x))
+  | .arr #[.str "date", x] => do some (.date (← jInt? x))
+  | .arr #[.str "garbage"] => some .garbage
+  | .arr #[.str "overflow"] => some .overflow
+  | _ => none
+
 def faultOf? (j : Json) : Option Fault := do
   let xs ← jArr? j
   match xs with
   | [.str "ok"] => some .ok
   | [.str "http", st, h, p, d] =>
     let st ← jNat? st
-    let h ← jOpt? jInt? h
+    let h ← hdrOf? h
     let p ← jStr? p >>= payloadOf?
     let d ← jOpt? jInt? d
-    some (.http ⟨st, h, false, p, d⟩)
-  | [.str "http", st, h, p, d, bad] =>
-    let st ← jNat? st
-    let h ← jOpt? jInt? h
-    let p ← jStr? p >>= payloadOf?
-    let d ← jOpt? jInt? d
-    let bad ← jBool? bad
-    some (.http ⟨st, h, bad, p, d⟩)
+    some (.http ⟨st, h, p, d⟩)
   | [.str "exc", a, b, c, d, e] =>
     some (.exc (← jBool? a) (← jBool? b) (← jBool? c) (← jBool? d) (← jBool? e))
   | _ => none
